@@ -47,6 +47,132 @@ def make_case(r):
     return text, rules, opts, {'input': text, 'rules': rules, 'opts': opts}
 
 
+def make_rename_case(r):
+    """Renaming a symbol puts one node at every place of the symbol; a later
+    step computed for *one* of those places must change that place only.
+    Enabled: SimplifySymbolNames and EraseNode.  The first command declares
+    the symbol (a success at the very first node makes strategy hierarchical
+    continue at position 0)."""
+    names = r.sample(['abcdefgh', 'counter_value', 'tmp_result_17',
+                      'qrstuvwx', 'limit_value'], r.randint(1, 3))
+    lines = [f'(declare-const {n} Int)' for n in names]
+    for i in range(r.randint(3, 6)):
+        a, b = r.choice(names), r.choice(names)
+        lines.append(r.choice([f'(assert (> {a} {i}))',
+                               f'(assert (< {a} (+ {b} {a})))',
+                               f'(assert (distinct {a} {b} {i}))']))
+    if r.random() < 0.4:
+        lines.insert(0, '(set-logic QF_LIA)')
+    text = '\n'.join(lines) + '\n(check-sat)\n'
+    # while the first name still has its long form nothing may be removed;
+    # afterwards every command has to stay, but what is inside may go
+    ntok = len(refreader.lex(text))
+    nassert = sum(1 for x in lines if x.startswith('(assert'))
+    pred = (f'has:{names[0]} ntok>={ntok} & has:{names[0]} ! '
+            f'count:assert>={nassert} & count:declare-const>={len(names)} & '
+            f'has:check-sat & |')
+    if r.random() < 0.5:
+        # only renamings are accepted; every other candidate is computed,
+        # compared with its designated place by the monitor, and rejected
+        pred = f'ntok>={ntok}'
+    d = r.choice([0, 2000])
+    rules = [realrun.rule(pred, 1, 'bug\n', '', delay_us=d),
+             realrun.rule('all', 0, 'ok\n', '', delay_us=d)]
+    opts = ['--strategy', r.choice(['hierarchical', 'hierarchical', 'hybrid']),
+            '-j', str(r.choice([1, 2, 4])), '--timeout', '20',
+            '--disable-all', '--erase-node', '--simplify-symbol-names']
+    return text, rules, opts, {'input': text, 'rules': rules, 'opts': opts,
+                               'family': 'rename'}
+
+
+def one_block_removed(cur, prev):
+    if len(cur) >= len(prev):
+        return False
+    i = 0
+    while i < len(cur) and cur[i] == prev[i]:
+        i += 1
+    k = len(prev) - len(cur)
+    return cur[i:] == prev[i + k:]
+
+
+def is_renaming(cur, prev):
+    """Same length, a function old -> new on tokens that maps every
+    occurrence of a renamed token."""
+    if len(cur) != len(prev) or cur == prev:
+        return False
+    m = {}
+    for a, b in zip(prev, cur):
+        if m.setdefault(a, b) != b:
+            return False
+    return all(a == b or a not in '()' for a, b in m.items())
+
+
+def judge_rename(res, run, text, desc):
+    """Every step of the hierarchical phase is one simplification: either
+    a renaming (same length, every occurrence of the old name) or the
+    removal of one subtree, i.e. of one contiguous block of tokens."""
+    prev = refreader.strip_comments(refreader.lex(text))
+    t_hier = min((e['t'] for e in run.events
+                  if e['ev'] == 'reduce_start'
+                  and e.get('strategy') == 'hierarchical'), default=None)
+    if t_hier is None:
+        return
+    k = 0
+    for e in sorted((e for e in run.events if e['ev'] == 'write'
+                     and e.get('text') is not None), key=lambda e: e['seq']):
+        k += 1
+        try:
+            cur = refreader.strip_comments(refreader.lex(e['text']))
+        except refreader.LexError:
+            return
+        if e['t'] >= t_hier:
+            res.count('real_steps_judged')
+            res.count('real_steps_of_rename_family')
+            ok = one_block_removed(cur, prev) or is_renaming(cur, prev)
+            if ok and is_renaming(cur, prev):
+                res.count('real_steps_that_rename')
+            if not ok:
+                w = dict(desc)
+                w['step'] = k
+                w['before'] = ' '.join(prev)[:1500]
+                w['after'] = ' '.join(cur)[:1500]
+                res.violation(
+                    'real-run:step-changes-more-than-one-place',
+                    f'accepted step #{k} of the hierarchical phase '
+                    f'({" ".join(desc["opts"][:4])}, only EraseNode and '
+                    f'SimplifySymbolNames enabled) is neither a renaming nor '
+                    f'the removal of one subtree', w)
+                return
+        prev = cur
+
+
+def judge_designated(res, run, desc):
+    """In the worker processes: a candidate computed for BFS node k of its
+    base (one identity-keyed replacement, no new declarations) is the base
+    with the subtree at that position replaced - nothing else."""
+    for e in run.events:
+        if e['ev'] == 'designated':
+            res.count('candidates_compared_with_designated_place'
+                      if e.get('located') else
+                      'candidates_whose_node_was_not_located')
+        elif e['ev'] == 'monitor_error' and e.get('where') == 'designated':
+            res.count('designated_monitor_errors')
+            res.add_set('monitor_errors', e.get('error', '')[:200])
+    bad = [e for e in run.events if e['ev'] == 'designated_mismatch']
+    if bad:
+        b = bad[0]
+        w = dict(desc)
+        w.update({'task': b.get('name'), 'node': b.get('nodeid'),
+                  'path': b.get('path'), 'base': b.get('base'),
+                  'expected': b.get('expected'), 'got': b.get('got')})
+        res.violation(
+            'real-run:candidate-changes-another-place',
+            f'a worker of a real run ({" ".join(desc["opts"][:4])}) built '
+            f'the candidate of "{b.get("name")}" for node #{b.get("nodeid")} '
+            f'(position {b.get("path")}), but the candidate is not its base '
+            f'with that position replaced ({len(bad)} such candidates)', w)
+
+
 def judge(res, run, text, desc):
     prev = refreader.strip_comments(refreader.lex(text))
     k = 0
@@ -81,18 +207,25 @@ def shard(args):
     base = common.scratch_dir('c11r')
     try:
         for i in range(args['n']):
-            text, rules, opts, desc = make_case(r)
+            rename = i % 3 == 2
+            text, rules, opts, desc = make_rename_case(r) if rename \
+                else make_case(r)
             wd = os.path.join(base, f'r{i}')
             run = realrun.run_ddsmt(
                 wd, text, rules, opts=opts,
-                launcher={'monitors': ['write'], 'write_text': True})
+                launcher={'monitors': ['write', 'designated'],
+                          'write_text': True})
             shutil.rmtree(wd, ignore_errors=True)
             res.count('evaluations')
             res.count('real_runs')
             if run.timed_out or run.rc != 0:
                 res.count('real_runs_failed')
                 continue
-            judge(res, run, text, desc)
+            judge_designated(res, run, desc)
+            if rename:
+                judge_rename(res, run, text, desc)
+            else:
+                judge(res, run, text, desc)
     finally:
         shutil.rmtree(base, ignore_errors=True)
     return res.to_dict()
